@@ -143,7 +143,8 @@ def check_C17(c):
     import json
     from concurrent.futures import ThreadPoolExecutor
     c.mc('Purity', _q(c, 'Purity_q.cfg', 'Purity_t.cfg'), workers=8, heap='6g')
-    res = tlc.run_tlc('Purity', cfg='PurityX.cfg', workers=4, heap='4g', simulate='num=%d' % _q(c, 60, 1500),
+    # one worker: with a fixed seed the simulated behaviours are then the same on every run
+    res = tlc.run_tlc('Purity', cfg='PurityX.cfg', workers=1, heap='4g', simulate='num=%d' % _q(c, 260, 6500),
                       extra=['-depth', '11', '-seed', str(c.seed + 3)], tag='Purity_sim')
     hs = {}
     for line in res['out'].splitlines():
@@ -151,7 +152,7 @@ def check_C17(c):
         if m:
             h = json.loads(tlc._unquote(m.group(1)))
             hs[json.dumps(h, sort_keys=True)] = h
-    hist = list(hs.values())
+    hist = [hs[k] for k in sorted(hs)]
     if not hist:
         raise tlc.MachineryError('no call histories from the simulation:\n' + res['out'][-1500:])
     c.rng.shuffle(hist)
@@ -166,7 +167,7 @@ def check_C17(c):
             dh[json.dumps(h, sort_keys=True)] = h
     if tlc.tlc_failed(dres) or not dh:
         raise tlc.MachineryError('no directed histories from Purity!DSpec:\n' + dres['out'][-1500:])
-    directed = list(dh.values())
+    directed = [dh[k] for k in sorted(dh)]
     if c.tier == 'quick':
         directed = c.rng.sample(directed, min(len(directed), 400))
     c.states += dres['distinct']
@@ -249,9 +250,9 @@ def check_C17(c):
         jobs.append(('tr_api_args', dict(args=args, usage_error=usage)))
     api = pmake(jobs)
     c.judge('J_Api', api, 'api-surface', gating=False)
-    c.rule = ('call histories of 10 calls generated by TLC in simulation mode from Purity.tla (26 operations: interpret, configure, '
+    c.rule = ('call histories of 10 calls generated by TLC in simulation mode from Purity.tla (27 operations: interpret, configure, '
               'reconfigure, format, encode, decode, a re-laid-out copy, canonicalize_roles, the four transformations, graph queries, errors, diagnostics, triple-conjunction round trip, '
-              'alignments, tree nodes/walk, |, -, and the in-place |=, -=, top=, rearrange, reset_variables) on a shared pool of 2 trees '
+              'alignments, tree nodes/walk, |, -, and the in-place |=, -=, top=, appending a marker, rearrange, reset_variables) on a shared pool of 2 trees '
               'and 2 graphs (40 different seeded pools), each replayed under PYTHONHASHSEED 0, 1, 2 and a seed-derived value and once '
               'inside a multiprocessing worker; the command run as a real subprocess under 4 hash seeds on a stream of 12 graphs x option '
               'sets; distinct by history; non-trivial = three or more calls')
